@@ -160,3 +160,85 @@ def dump(node_or_text):
     if isinstance(node_or_text, str):
         node_or_text = ast.parse("(" + node_or_text + ")", mode="eval").body
     return ast.dump(node_or_text)
+
+
+COMPS = (ast.ListComp, ast.SetComp, ast.DictComp, ast.GeneratorExp)
+
+
+class _InsideComps(ast.NodeTransformer):
+    """Wrap the occurrences of one sub-expression (given by its dump) that lie lexically inside comprehensions into
+    __rin(dependent, node); ``dependent`` = the occurrence uses a name bound by a `for` clause in scope at that place."""
+
+    def __init__(self, kd):
+        self.kd = kd
+        self.bound = frozenset()
+        self.inside = False
+        self.occurrences = []  # dependent flags
+
+    def _comp(self, node):
+        saved = (self.bound, self.inside)
+        outer_inside = self.inside
+        first = True
+        self.inside = True
+        for gen in node.generators:
+            if first:
+                # the first iterable is evaluated in the enclosing scope
+                self.inside, b = outer_inside, self.bound
+                gen.iter = self.visit(gen.iter)
+                self.inside = True
+                first = False
+            else:
+                gen.iter = self.visit(gen.iter)
+            self.bound = self.bound | {n.id for n in ast.walk(gen.target) if isinstance(n, ast.Name)}
+            gen.ifs = [self.visit(c) for c in gen.ifs]
+        if isinstance(node, ast.DictComp):
+            node.key = self.visit(node.key)
+            node.value = self.visit(node.value)
+        else:
+            node.elt = self.visit(node.elt)
+        self.bound, self.inside = saved
+        return node
+
+    def visit(self, node):
+        if isinstance(node, ast.Lambda):
+            return node
+        if isinstance(node, COMPS):
+            hit = self.inside and ast.dump(node) == self.kd
+            names = {n.id for n in ast.walk(node) if isinstance(n, ast.Name)}
+            dep = bool(names & self.bound)
+            new = self._comp(node)
+        elif isinstance(node, ast.expr) and not isinstance(getattr(node, "ctx", None), (ast.Store, ast.Del)):
+            hit = self.inside and not isinstance(node, (ast.Starred, ast.Slice)) and ast.dump(node) == self.kd
+            names = {n.id for n in ast.walk(node) if isinstance(n, ast.Name)}
+            dep = bool(names & self.bound)
+            new = self.generic_visit(node)
+        else:
+            return self.generic_visit(node)
+        if hit:
+            self.occurrences.append(dep)
+            return ast.copy_location(ast.Call(func=ast.Name(id="__rin", ctx=ast.Load()),
+                                              args=[ast.Constant(value=dep), new], keywords=[]), node)
+        return new
+
+
+def inside_values(text, kd, inputs, params):
+    """For the sub-expression with dump ``kd``: (flags of its occurrences inside comprehensions - True = uses a loop
+    variable in scope there, the objects those occurrences evaluated to while Python evaluated the condition)."""
+    tree = ast.parse(text, mode="eval")
+    tr = _InsideComps(kd)
+    new = tr.visit(tree)
+    ast.fix_missing_locations(new)
+    seen = []
+
+    def rin(dep, v):
+        seen.append(v)
+        return v
+
+    g = {"__builtins__": builtins}
+    g.update(namespace(inputs, params))
+    g["__rin"] = rin
+    try:
+        eval(compile(new, "<cond-inside>", "eval"), g)
+    except Exception:  # noqa
+        pass
+    return tr.occurrences, seen
